@@ -120,12 +120,16 @@ Proof. exact (thm_expand_meaning). Qed.
    every accepted replacement is a parse according to the grammar — $$, $& $` $' $+ $_, $n with
    the longest-number rule (all digits; in ECMAScript mode the longest digit prefix that names a
    group), ${n}, ${name}; every other '$' is literal — and its rule list reads back as the
-   compiled items.  PARTIAL: in ECMAScript mode replacements containing a backslash (\u escapes
-   inside ${name}) are modelled and exercised by leg c09-parse but not described by the grammar. *)
+   compiled items.  In ECMAScript mode this includes "${" followed by a name that cannot be
+   scanned (a backslash that starts no \u escape: "${n\", "${\x}"): since /repo 273146b that '$'
+   is a literal '$' like every other unrecognised form (no form of the grammar has a backslash in
+   the name, so RS_literal applies).  PARTIAL: in ECMAScript mode replacements containing "\u"
+   (no_u_escape: a backslash immediately followed by 'u', the escapes inside ${name}) are
+   modelled and exercised by leg c09-parse but not described by the grammar. *)
 Theorem C09_replacement_parser_spec_partial :
   forall env n rep d,
     env_ok env n -> new_replacer_data env rep = Ok d ->
-    (use_e env = true -> ~ In 92 rep) ->
+    (use_e env = true -> no_u_escape rep) ->
     exists items, rep_spec env rep items /\ toks_of d = Some (compile_items env items []).
 Proof. exact (thm_parser_spec_partial is_word_char is_ecma_start is_ecma_char). Qed.
 
@@ -163,13 +167,15 @@ Theorem C09_replacement_grammar_unambiguous :
   forall env s i1 i2, rep_spec env s i1 -> rep_spec env s i2 -> i1 = i2.
 Proof. exact (rep_spec_functional is_word_char is_ecma_start is_ecma_char). Qed.
 
-(* The only errors the parser reports: "capture group number out of range" (a digit run above
-   MaxInt32 after $ or ${), and in ECMAScript mode a malformed ${name} (invalid name, bad \u escape). *)
+(* The only error the parser reports, in every mode: "capture group number out of range" (a digit
+   run above MaxInt32 after $ or ${).  Since /repo 273146b a malformed ECMAScript ${name} (invalid
+   name, bad \u or \u{...} escape: ErrInvalidECMAGroupName, ErrTooFewHex, ErrInvalidHex,
+   ErrMissingBrace raised inside scanCapname) is no error any more: scanDollar swallows it and
+   copies the '$' literally. *)
 Theorem C09_parser_error_codes :
   forall env rep c,
     new_replacer_data env rep = Err c ->
-    c = E_CapOutOfRange \/
-    (use_e env = true /\ (c = E_InvalidECMAName \/ c = E_TooFewHex \/ c = E_InvalidHex \/ c = E_MissingBrace)).
+    c = E_CapOutOfRange.
 Proof. exact (thm_error_codes is_word_char is_ecma_start is_ecma_char). Qed.
 
 End Oracles.
